@@ -7,6 +7,7 @@ import (
 	"strings"
 	"time"
 
+	"github.com/LemoFoundationLtd/lemochain-core/chain/consensus"
 	"github.com/LemoFoundationLtd/lemochain-core/chain/types"
 	"github.com/LemoFoundationLtd/lemochain-core/common"
 	"github.com/LemoFoundationLtd/lemochain-core/network"
@@ -244,6 +245,30 @@ func c19Run(c *Ctx, order []int, serial bool) (out c19Outcome, reqs []c19Req, pu
 			reqs = append(reqs, c19Req{Kind: "read", Label: "reads"})
 		}
 	}
+	// RPC-thread signature lookups (main/node/api.go "find my confirm in block": consensus.SignBlock of a known
+	// block): 0-2 side tasks of the concurrent execution. SignBlock only fills the package-level memo, so they are
+	// not part of the compared outcome and not permuted; what they RETURN must be the node's own valid signature
+	// over the hash they asked for (stream "sign": absent in older replays = no side task)
+	var signHashes []common.Hash
+	for i, ns := 0, c.Draw("sign", 3); i < ns; i++ {
+		if i > 0 && c.Draw("sign", 2) == 0 {
+			signHashes = append(signHashes, signHashes[0])
+		} else {
+			signHashes = append(signHashes, cand[c.Draw("sign", len(cand))].Hash())
+		}
+	}
+	signBad := make([]string, len(signHashes))
+	signTask := func(i int) {
+		h := signHashes[i]
+		sig, err := consensus.SignBlock(h)
+		if err != nil {
+			return
+		}
+		id, rerr := types.BytesToSignData(sig).RecoverNodeID(h)
+		if len(sig) != 65 || rerr != nil || string(id) != string(selfID) {
+			signBad[i] = h.Hex()[:12]
+		}
+	}
 	verdicts := make([]string, len(reqs))
 	wire := make([]*types.Block, len(reqs)) // every request carries its own decoded copy
 	for i, rq := range reqs {
@@ -285,7 +310,19 @@ func c19Run(c *Ctx, order []int, serial bool) (out c19Outcome, reqs []c19Req, pu
 			i := i
 			c.W.Spawn(nut.Tag, fmt.Sprintf("req%d", i), func() { run(i) })
 		}
+		for i := range signHashes {
+			i := i
+			c.W.Spawn(nut.Tag, fmt.Sprintf("rpcsign%d", i), func() { signTask(i) })
+		}
 		c.W.Settle()
+		for _, bad := range signBad {
+			if bad != "" {
+				c.Fail("C19/emitted-signature/not-own-signature", "consensus.SignBlock(%s), called by an RPC thread while the engine handled %d concurrent requests, returned bytes that are not the node's own signature over that hash (the signature memo was read while another caller was filling it)", bad, len(reqs))
+			}
+		}
+		if len(signHashes) > 1 {
+			c.Probe("concurrent_rpc_sign")
+		}
 	} else {
 		for _, i := range order {
 			i := i
